@@ -259,6 +259,20 @@ class ListField(Field):
                 item._key = self._key
         return proxy
 
+    def validate(self, cfg: Config, value: Any) -> Any:
+        """
+        Run the validation chain. The field's validator may hand back a new list (sorted,
+        filtered): it is validated like the value that was given, so that the configuration holds a
+        list that keeps validating its items.
+
+        :param cfg: current config
+        :param value: value to validate
+        """
+        value = super().validate(cfg, value)
+        if self.validator and value is not None:
+            value = self._validate(cfg, value)
+        return value
+
     def to_basic(self, cfg: Config, value: Union[list, ListProxy]) -> list:
         """
         Convert to basic type.
